@@ -1,6 +1,22 @@
 ------------------------------ MODULE MC_Layout ------------------------------
 (* Exhaustive configuration of Layout: full state of both tiers; obs is an *)
 (* observation, not state.                                                  *)
+(* MC_Layout.cfg:   all sequences of two operations (every property x      *)
+(*                  value class x spelling).                                *)
+(* MC_Layout_t.cfg: additionally every third operation from the reduced     *)
+(*                  alphabet LiteOp (two accepted + one refused value per   *)
+(*                  property of the target, its resets, copies in both      *)
+(*                  directions and onto itself, scribble/fini of the        *)
+(*                  sibling) after every such pair.                         *)
 EXTENDS Layout
 View == <<kind, t2, t1, nid, ops>>
+
+LiteOp ==
+  \/ \E nc \in CanonNames(kind) : \E v \in FewVals(PropOfName(kind, nc).pt) : Set(1, nc, v)
+  \/ \E nc \in CanonNames(kind) : Reset(1, nc, "null")
+  \/ Copy(1, 2, "null") \/ Copy(2, 1, "empty") \/ Copy(1, 1, "null")
+  \/ Scribble(2) \/ Fini(2)
+Next3 == /\ ops < MaxOps /\ ops' = ops + 1
+         /\ IF ops < 2 THEN AnyOp ELSE LiteOp
+Spec3 == Init /\ [][Next3]_vars
 =============================================================================
